@@ -229,6 +229,28 @@ fn count_acquisitions(text: &str) -> usize {
     [".read().await", ".write().await", ".lock().await"].iter().map(|p| squeezed.matches(p).count()).sum()
 }
 
+/// Acquisition forms that neither this count nor the syntax-tree walk understands: a lock future that is
+/// not awaited on the spot (`let f = l.write(); .. f.await`, `timeout(d, l.write()).await`), and the
+/// non-async / owned variants.  Returns (number of `.read()/.write()/.lock()` not followed by `.await`,
+/// names of unsupported methods that occur).
+fn count_unsupported(text: &str) -> (usize, Vec<String>) {
+    let squeezed: String = text.chars().filter(|c| !c.is_whitespace()).collect();
+    let all: usize = [".read()", ".write()", ".lock()"].iter().map(|p| squeezed.matches(p).count()).sum();
+    let mut bad = vec![];
+    for m in ["try_read", "try_write", "try_lock", "blocking_read", "blocking_write", "blocking_lock", "read_owned", "write_owned",
+              "lock_owned", "try_read_owned", "try_write_owned", "try_lock_owned"] {
+        if squeezed.contains(&format!(".{}(", m)) {
+            bad.push(m.to_string());
+        }
+    }
+    (all - count_acquisitions(text), bad)
+}
+
+/// `.lock()` etc. without `.await` that were read and are not tokio locks: (file, how many)
+const NOT_AWAITED_REVIEWED: &[(&str, usize)] = &[
+    ("saito-rust/src/io_event.rs", 1), // EVENT_COUNTER: std::sync::Mutex<u64>, `.lock().unwrap()`, never held across an await
+];
+
 fn list_rs(dir: &Path, out: &mut Vec<PathBuf>) {
     let mut entries: Vec<PathBuf> = fs::read_dir(dir).map(|r| r.filter_map(|e| e.ok().map(|e| e.path())).collect()).unwrap_or_default();
     entries.sort();
@@ -242,8 +264,9 @@ fn list_rs(dir: &Path, out: &mut Vec<PathBuf>) {
 }
 
 /// file (relative to the repository) -> number of acquisition tokens in non-test code
-pub fn text_counts(repo: &Path, crates: &[&str]) -> BTreeMap<String, usize> {
+pub fn text_counts(repo: &Path, crates: &[&str]) -> (BTreeMap<String, usize>, Vec<String>) {
     let mut res = BTreeMap::new();
+    let mut unsupported: Vec<String> = vec![];
     for c in crates {
         let src = repo.join(c).join("src");
         let mut files = vec![];
@@ -259,14 +282,25 @@ pub fn text_counts(repo: &Path, crates: &[&str]) -> BTreeMap<String, usize> {
                 cut.insert(base.join(format!("{}.rs", m)));
                 cut.insert(base.join(&m));
             }
-            counts.push((f.clone(), count_acquisitions(&rest)));
+            let mut msgs: Vec<String> = vec![];
+            let rel = f.strip_prefix(repo).unwrap().to_string_lossy().to_string();
+            let (not_awaited, bad) = count_unsupported(&rest);
+            let reviewed = NOT_AWAITED_REVIEWED.iter().find(|(p, _)| *p == rel).map(|(_, n)| *n).unwrap_or(0);
+            if not_awaited != reviewed {
+                msgs.push(format!("{}: {} `.read()/.write()/.lock()` without `.await` in non-test code ({} reviewed): a lock future awaited elsewhere, or a non-tokio lock, is not analysed", rel, not_awaited, reviewed));
+            }
+            for m in bad {
+                msgs.push(format!("{}: `.{}(..)` is an acquisition form the translator does not analyse", rel, m));
+            }
+            counts.push((f.clone(), count_acquisitions(&rest), msgs));
         }
-        for (f, n) in counts {
+        for (f, n, mut msgs) in counts {
             if cut.iter().any(|c| f.starts_with(c)) {
                 continue;
             }
+            unsupported.append(&mut msgs);
             res.insert(f.strip_prefix(repo).unwrap().to_string_lossy().to_string(), n);
         }
     }
-    res
+    (res, unsupported)
 }
